@@ -74,6 +74,17 @@ func InBubble(t *testing.T, f func()) {
 	})
 }
 
+// NoBubble runs f on a child goroutine (so that runtime.Goexit in f is harmless) with the real
+// clock. Used where time does not matter and executions may legitimately leave parked goroutines.
+func NoBubble(f func()) {
+	done := make(chan struct{})
+	go func() {
+		defer close(done)
+		f()
+	}()
+	<-done
+}
+
 // RunSeq executes the scenario against a fresh world and compares every reply with the model.
 // It must be called inside a bubble when ops contain "advance" or non-zero TTLs matter.
 func RunSeq(sc SeqScenario, o SeqOpts) *SeqResult {
